@@ -64,6 +64,7 @@ type Contract struct {
 	CallSites  map[string]int      // "<callee short name>" -> exact number of static call sites
 	Ghosts     []string            // ghost variables (int) bound to fresh symbols
 	CallAsserts map[string][]Clause // "<callee short name>#<ordinal>" -> assertions checked before that call
+	ParamNames  []string            // names the contract uses for the parameters (positional)
 }
 
 // Registry: a package-level map filled by constant Register* calls in init.
@@ -357,6 +358,11 @@ func (cs *ContractSet) loadFile(path string) error {
 				cur.CallSites = map[string]int{}
 			}
 			cur.CallSites[f[0]], _ = strconv.Atoi(f[1])
+		case "params":
+			// the parameter names the contract was written against, in order
+			// (receiver first): bound positionally, so renaming a parameter in the
+			// source does not invalidate the contract
+			cur.ParamNames = strings.Fields(rest)
 		case "ghostset":
 			cur.GhostSets = append(cur.GhostSets, mk())
 		case "ghostpost":
